@@ -32,7 +32,10 @@ def num (i : Int) : Json := .num (Lean.JsonNumber.fromInt i)
 def refOf (j : Json) : Option Ref :=
   match j with
   | .null => none
-  | _ => some ⟨str j "reg", str j "repo", str j "id", bool j "dig", str j "str", str j "src"⟩
+  | _ =>
+    -- `src` is COMPUTED by the model (xpkg.ParsePackageSourceFromReference as string logic over ref.String());
+    -- the value the harness ships (the real function's) is compared through the observation, not used
+    some ⟨str j "reg", str j "repo", str j "id", bool j "dig", str j "str", parseSource (str j "str")⟩
 
 def refJson : Option Ref → Json
   | none => .null
@@ -218,8 +221,8 @@ def peersOf (scn : Json) (i : Nat) : List PeerWrite :=
 
 def imgObs (i : Img) : Json :=
   match i.ref with
-  | none => Json.mkObj [("img", .str i.img), ("ok", .bool false), ("name", .str "")]
-  | some r => Json.mkObj [("img", .str i.img), ("ok", .bool true), ("name", .str (toDNSLabel r.repo))]
+  | none => Json.mkObj [("img", .str i.img), ("ok", .bool false), ("name", .str ""), ("src", .str "")]
+  | some r => Json.mkObj [("img", .str i.img), ("ok", .bool true), ("name", .str (toDNSLabel r.repo)), ("src", .str (parseSource r.str))]
 
 def stepImgs : Step → List Img
   | .install p c f => p ++ c ++ f
